@@ -1433,4 +1433,301 @@ theorem encodedWords_noBool (ms : ML) (inp : List Int) (hwf : wfOs ms = true) (h
   · simp at hd
 
 
+/-! ### what decodes can be written back -/
+
+theorem rep_present (f : List UInt8 → Res Val) (h : ∀ inp v r ws, f inp = .ok v r ws → presentV v = true) :
+    ∀ (n : Nat) (inp : List UInt8) (vs : VL) (r : List UInt8) (ws : List Warning),
+      rep f n inp = .ok vs r ws → presentL vs = true := by
+  intro n
+  induction n with
+  | zero => intro inp vs r ws he; simp [rep] at he; simp [← he.1, presentL]
+  | succ n ih =>
+    intro inp vs r ws he
+    simp only [rep] at he
+    split at he
+    · simp at he
+    · simp at he
+    · rename_i v r1 ws1 h1
+      split at he
+      · simp at he
+      · simp at he
+      · rename_i vs' r2 ws2 h2
+        simp at he
+        rw [← he.1]
+        simp [presentL, h _ _ _ _ h1, ih _ _ _ _ h2]
+
+theorem readIntR_present {inp : List UInt8} {k : Int → Option Val} {x : Val} {r : List UInt8} {ws : List Warning}
+    (hk : ∀ v y, k v = some y → presentV y = true) (h : readIntR inp k = .ok x r ws) : presentV x = true := by
+  obtain ⟨v, _, hv⟩ := readIntR_ok h
+  exact hk v x hv
+
+mutual
+theorem decM_present : ∀ (t : MT) (inp : List UInt8) (v : Val) (r : List UInt8) (ws : List Warning),
+    noOptM t = true → decM t inp = .ok v r ws → presentV v = true
+  | .int32 _ _, inp, v, r, ws, _, h => by
+    simp only [decM] at h
+    exact readIntR_present (fun v y hy => by split at hy <;> simp at hy; simp [← hy, presentV]) h
+  | .boolean, inp, v, r, ws, _, h => by
+    simp only [decM] at h
+    exact readIntR_present (fun v y hy => by split at hy <;> simp at hy; simp [← hy, presentV]) h
+  | .enum _ _ _, inp, v, r, ws, _, h => by
+    simp only [decM] at h
+    exact readIntR_present (fun v y hy => by split at hy <;> simp at hy; simp [← hy, presentV]) h
+  | .flags _ _, inp, v, r, ws, _, h => by
+    simp only [decM] at h
+    exact readIntR_present (fun v y hy => by simp at hy; simp [← hy, presentV]) h
+  | .tick, inp, v, r, ws, _, h => by
+    simp only [decM] at h
+    exact readIntR_present (fun v y hy => by simp at hy; simp [← hy, presentV]) h
+  | .tuneParam, inp, v, r, ws, _, h => by
+    simp only [decM] at h
+    exact readIntR_present (fun v y hy => by simp at hy; simp [← hy, presentV]) h
+  | .string _, inp, v, r, ws, _, h => by
+    simp only [decM] at h
+    split at h
+    · simp at h
+    · split at h <;> simp at h
+      simp [← h.1, presentV]
+  | .int32String, inp, v, r, ws, _, h => by
+    simp only [decM] at h
+    split at h
+    · simp at h
+    · split at h <;> simp at h
+      simp [← h.1, presentV]
+  | .data, inp, v, r, ws, _, h => by
+    simp only [decM] at h
+    split at h
+    · simp at h
+    · split at h
+      · simp at h
+      · split at h <;> simp at h
+        simp [← h.1, presentV]
+  | .rest, inp, v, r, ws, _, h => by simp [decM] at h; simp [← h.1, presentV]
+  | .raw len, inp, v, r, ws, _, h => by
+    simp only [decM, readRawR] at h
+    split at h
+    · simp at h
+    · split at h <;> simp at h
+      simp [← h.1, presentV]
+  | .beUint16, inp, v, r, ws, _, h => by
+    simp only [decM, readRawR] at h
+    split at h
+    · simp at h
+    · split at h <;> simp at h
+      simp [← h.1, presentV]
+  | .uint8, inp, v, r, ws, _, h => by
+    simp only [decM, readRawR] at h
+    split at h
+    · simp at h
+    · split at h <;> simp at h
+      simp [← h.1, presentV]
+  | .packedAddresses, inp, v, r, ws, _, h => by
+    simp only [decM] at h
+    split at h <;> simp at h
+    simp [← h.1, presentV]
+  | .serverinfoClient, inp, v, r, ws, _, h => by simp [decM] at h; simp [← h.1, presentV]
+  | .twString n, inp, v, r, ws, _, h => by
+    simp only [decM] at h
+    split at h
+    · rename_i vs r' ws' hr
+      simp at h
+      rw [← h.1]
+      simp only [presentV]
+      exact rep_present _ (fun inp v r ws hh =>
+        readIntR_present (fun v y hy => by simp at hy; simp [← hy, presentV]) hh) _ _ _ _ _ hr
+    · simp at h
+    · simp at h
+  | .optional _, _, _, _, _, hn, _ => by simp [noOptM] at hn
+  | .array n t, inp, v, r, ws, hn, h => by
+    simp only [noOptM] at hn
+    simp only [decM] at h
+    split at h
+    · rename_i vs r' ws' hr
+      simp at h
+      rw [← h.1]
+      simp only [presentV]
+      exact rep_present _ (fun inp v r ws hh => decM_present t inp v r ws hn hh) _ _ _ _ _ hr
+    · simp at h
+    · simp at h
+  | .object ms, inp, v, r, ws, hn, h => by
+    simp only [noOptM] at hn
+    simp only [decM] at h
+    split at h
+    · rename_i vs r' ws' hr
+      simp at h
+      rw [← h.1]
+      simp only [presentV]
+      exact decMs_present ms inp vs r' ws' hn hr
+    · simp at h
+    · simp at h
+theorem decMs_present : ∀ (ms : ML) (inp : List UInt8) (vs : VL) (r : List UInt8) (ws : List Warning),
+    noOptMs ms = true → decMs ms inp = .ok vs r ws → presentL vs = true
+  | .nil, inp, vs, r, ws, _, h => by simp [decMs] at h; simp [← h.1, presentL]
+  | .cons t ms, inp, vs, r, ws, hn, h => by
+    simp only [noOptMs, Bool.and_eq_true] at hn
+    simp only [decMs] at h
+    split at h
+    · simp at h
+    · simp at h
+    · rename_i v r1 ws1 h1
+      split at h
+      · simp at h
+      · simp at h
+      · rename_i vs' r2 ws2 h2
+        simp at h
+        rw [← h.1]
+        simp [presentL, decM_present t _ _ _ _ hn.1 h1, decMs_present ms _ _ _ _ hn.2 h2]
+end
+
+/-- an optional member that `wfM` admits, decoded: present (with a scalar inside), or absent with
+the unpacker used up -/
+theorem decM_optional (t : MT) (hin : optInnerOk t = true) (inp : List UInt8) (v : Val) (r : List UInt8)
+    (ws : List Warning) (h : decM (.optional t) inp = .ok v r ws) :
+    (v ≠ .none ∧ presentV v = true) ∨ (v = .none ∧ r = []) := by
+  simp only [decM] at h
+  split at h
+  · rename_i x r' ws' hd
+    simp at h
+    left
+    rw [← h.1]
+    refine ⟨by simp, ?_⟩
+    simp only [presentV]
+    have hno : noOptM t = true := by cases t <;> simp_all [optInnerOk, noOptM]
+    exact decM_present t inp x r' ws' hno hd
+  · rename_i e r' ws' hd
+    simp at h
+    right
+    refine ⟨h.1.symm, ?_⟩
+    rw [← h.2.1]
+    cases t with
+    | int32 a b =>
+      cases a <;> cases b <;> simp [optInnerOk] at hin
+      simp only [decM, readIntR] at hd
+      split at hd
+      · simp at hd; exact hd.2.1
+      · simp [checkRange] at hd
+    | flags _ _ =>
+      simp only [decM, readIntR] at hd
+      split at hd
+      · simp at hd; exact hd.2.1
+      · simp at hd
+    | string s =>
+      cases s <;> simp [optInnerOk] at hin
+      simp only [decM] at hd
+      split at hd
+      · simp at hd; exact hd.2.1
+      · simp at hd
+    | data =>
+      simp only [decM] at hd
+      split at hd
+      · simp at hd; exact hd.2.1
+      · split at hd
+        · simp at hd; exact hd.2.1
+        · split at hd
+          · simp at hd; exact hd.2.1
+          · simp at hd
+    | _ => simp [optInnerOk] at hin
+  · simp at h
+
+/-- only optional members left and nothing to read: everything is absent -/
+theorem decMs_allOptional_empty : ∀ (ms : ML) (vs : VL) (r : List UInt8) (ws : List Warning),
+    wfMs ms = true → allOptional ms = true → decMs ms [] = .ok vs r ws → allNone vs = true
+  | .nil, vs, r, ws, _, _, h => by simp [decMs] at h; simp [← h.1, allNone]
+  | .cons t ms, vs, r, ws, hwf, ha, h => by
+    cases t with
+    | optional t' =>
+      simp only [allOptional] at ha
+      simp only [wfMs, Bool.and_eq_true] at hwf
+      have hin : optInnerOk t' = true := by simpa [wfM] using hwf.1.1
+      simp only [decMs, decM, optInner_empty t' hin] at h
+      split at h
+      · simp at h
+      · simp at h
+      · rename_i vs' r2 ws2 h2
+        simp at h
+        rw [← h.1]
+        simp only [allNone]
+        exact decMs_allOptional_empty ms vs' r2 ws2 hwf.2 ha h2
+    | _ => simp [allOptional] at ha
+
+/-- What `decode` produces has its absent optional members at the end. -/
+theorem decMs_absentOk : ∀ (ms : ML) (inp : List UInt8) (vs : VL) (r : List UInt8) (ws : List Warning),
+    wfMs ms = true → optsLast ms = true → decMs ms inp = .ok vs r ws → absentOk vs = true
+  | .nil, inp, vs, r, ws, _, _, h => by simp [decMs] at h; simp [← h.1, absentOk]
+  | .cons t ms, inp, vs, r, ws, hwf, hol, h => by
+    have hwf0 := hwf
+    simp only [wfMs, Bool.and_eq_true] at hwf
+    simp only [decMs] at h
+    split at h
+    · simp at h
+    · simp at h
+    · rename_i v r1 ws1 h1
+      split at h
+      · simp at h
+      · simp at h
+      · rename_i vs' r2 ws2 h2
+        simp at h
+        rw [← h.1]
+        cases t with
+        | optional t' =>
+          simp only [optsLast] at hol
+          have hin : optInnerOk t' = true := by simpa [wfM] using hwf.1.1
+          rcases decM_optional t' hin inp v r1 ws1 h1 with ⟨hne, hp⟩ | ⟨hv, hr⟩
+          · have htail : absentOk vs' = true := by
+              -- the remaining members are all optional
+              exact decMs_absentOk_allOptional ms r1 vs' r2 ws2 hwf.2 hol h2
+            cases v <;> simp_all [absentOk]
+          · subst hv; subst hr
+            simp only [absentOk]
+            exact decMs_allOptional_empty ms vs' r2 ws2 hwf.2 hol h2
+        | _ =>
+          all_goals (
+            simp only [optsLast, Bool.and_eq_true] at hol
+            have hp := decM_present _ _ _ _ _ hol.1 h1
+            have htail := decMs_absentOk ms r1 vs' r2 ws2 hwf.2 hol.2 h2
+            cases v <;> simp_all [absentOk, presentV])
+where
+  decMs_absentOk_allOptional : ∀ (ms : ML) (inp : List UInt8) (vs : VL) (r : List UInt8) (ws : List Warning),
+      wfMs ms = true → allOptional ms = true → decMs ms inp = .ok vs r ws → absentOk vs = true
+    | .nil, inp, vs, r, ws, _, _, h => by simp [decMs] at h; simp [← h.1, absentOk]
+    | .cons t ms, inp, vs, r, ws, hwf, ha, h => by
+      cases t with
+      | optional t' =>
+        simp only [allOptional] at ha
+        simp only [wfMs, Bool.and_eq_true] at hwf
+        have hin : optInnerOk t' = true := by simpa [wfM] using hwf.1.1
+        simp only [decMs] at h
+        split at h
+        · simp at h
+        · simp at h
+        · rename_i v r1 ws1 h1
+          split at h
+          · simp at h
+          · simp at h
+          · rename_i vs' r2 ws2 h2
+            simp at h
+            rw [← h.1]
+            rcases decM_optional t' hin inp v r1 ws1 h1 with ⟨hne, hp⟩ | ⟨hv, hr⟩
+            · have htail := decMs_absentOk_allOptional ms r1 vs' r2 ws2 hwf.2 ha h2
+              cases v <;> simp_all [absentOk]
+            · subst hv; subst hr
+              simp only [absentOk]
+              exact decMs_allOptional_empty ms vs' r2 ws2 hwf.2 ha h2
+      | _ => simp [allOptional] at ha
+
+
+/-- Every message that `decode` accepts (with or without warnings) can be encoded again, and the
+result decodes to the same value without warnings. -/
+theorem decoded_reencodes (ms : ML) (bs : List UInt8) (v : VL) (ws : List Warning) (hwf : wfMs ms = true)
+    (hol : optsLast ms = true) (hd : decodeMembers ms bs = .ok v ws) :
+    ∃ bs', encStruct ms v = .ok bs' ∧ decodeMembers ms bs' = .ok v [] := by
+  unfold decodeMembers at hd
+  split at hd
+  · rename_i vs r ws' h
+    simp at hd
+    rw [← hd.1]
+    exact decodeMembers_encStruct ms vs hwf (decMs_wt ms bs vs r ws' h) (decMs_absentOk ms bs vs r ws' hwf hol h)
+  · simp at hd
+  · simp at hd
+
 end Tw.Gamenet
